@@ -128,6 +128,9 @@ type SpecOpts struct {
 	GuardMulti bool // allow guarded branches whose pattern may yield several candidates
 	MsgOnly    bool
 	Inspect    bool // bindings-branch patterns that look inside values stored by actions
+	// ActionWithMessageBranching: some nodes have both an action and message branching -
+	// Compile accepts them, a step at such a node is an error (and Walk moves to the error node)
+	ActionWithMessageBranching bool
 }
 
 var nodeNames = []string{"start", "n1", "n2", "n3", "n4", "error", "aerr"}
@@ -246,6 +249,11 @@ func GenSpec(r *rand.Rand, o SpecOpts, u *Uid) *ref.ASpec {
 		switch {
 		case kind < 4: // message branching
 			n.Branching = &ref.ABranching{Type: "message"}
+			if o.ActionWithMessageBranching && r.Intn(6) == 0 {
+				pa := po
+				pa.Guard = false
+				n.Action = GenProg(r, pa, u)
+			}
 		case kind < 8: // action + bindings branching
 			if r.Intn(5) > 0 {
 				pa := po
